@@ -137,6 +137,14 @@ fn survey(args: &[String]) {
         let cx = monitors::Ctx { a: &a, dels: dispatch::deliveries(&a) };
         let mut any = false;
         let mut shown = false;
+        // development aid: VERIF_DUMP_PROG=<name> prints the trace of that program whether or not a monitor fires
+        if std::env::var("VERIF_DUMP_PROG").map(|n| n == prog.name).unwrap_or(false) {
+            println!("{}", serde_json::to_string(&*prog).unwrap());
+            for (i, e) in ex.trace.iter().enumerate() {
+                let s = format!("{:?}", e);
+                println!("{i:4} {}", if s.len() > 300 { &s[..300] } else { &s[..] });
+            }
+        }
         for prop in monitors::ALL_PROPS {
             let (vs, _cov) = monitors::run_monitor(prop, &cx);
             for v in vs.iter() {
